@@ -1,10 +1,133 @@
 import Driver.Common
-/-! C16 driver (stub: answers bad-op until the property's model is wired in). -/
+import Sourmash.Model.Nodegraph
+import Sourmash.Spec.Khmer
+/-! C16 driver: nodegraph file format.  Model column = `NG.G.save` / `NG.G.load` (32-bit block model
+of the code); spec column = the khmer layout computed from the bit sets (`Khmer.file`), never
+through the block model. -/
 open Driver
 
-def stepC16 (s : Unit) (ws : List String) : Unit × Resp :=
-  match ws with
-  | "case" :: _ => (s, { model := "ok" })
-  | _ => (s, { model := "bad-op" })
+/-- spec-level state: k, occupied, per table (size, bitmap) -/
+structure SpecG where
+  k : Nat
+  occ : Nat
+  tables : List (Nat × Array Bool)
 
-def main : IO Unit := Driver.run () stepC16
+structure St where
+  g : Option NG.G := none
+  s : Option SpecG := none
+
+def bytesToU8 (l : List Nat) : List UInt8 := l.map UInt8.ofNat
+def u8ToBytes (l : List UInt8) : List Nat := l.map UInt8.toNat
+
+def showBlocks (l : List Nat) : String := showNats l
+
+def dumpModel (g : NG.G) : String :=
+  s!"k={g.ksize} occ={g.occupied} n={g.tables.length} " ++
+  ";".intercalate (g.tables.map (fun t => s!"{t.size}:{showBlocks t.blocks}"))
+
+/-- 32-bit words of a bitmap, computed from the bits -/
+def specBlocks (size : Nat) (a : Array Bool) : List Nat :=
+  (List.range ((size + 31) / 32)).map (fun i =>
+    (List.range 32).foldl (fun acc j => if 32 * i + j < size && a.getD (32 * i + j) false then acc + 2 ^ j else acc) 0)
+
+def dumpSpec (s : SpecG) : String :=
+  s!"k={s.k} occ={s.occ} n={s.tables.length} " ++
+  ";".intercalate (s.tables.map (fun t => s!"{t.1}:{showBlocks (specBlocks t.1 t.2)}"))
+
+def specFile (s : SpecG) : List Nat :=
+  Khmer.file s.k s.occ (s.tables.map (fun t => (t.1, fun b => t.2.getD b false)))
+
+def leVal (a : Array Nat) (off n : Nat) : Nat :=
+  (List.range n).foldl (fun acc i => acc + a.getD (off + i) 0 * 256 ^ i) 0
+
+/-- decode a khmer file at the spec level: every bit below the size as recorded in byte b/8, bit b%8 -/
+def specDecode (bs : Array Nat) : Option SpecG := Id.run do
+  if bs.size < 19 then return none
+  if (bs.toList.take 6) != [0x4f, 0x58, 0x4c, 0x49, 4, 2] then return none
+  let k := leVal bs 6 4
+  let n := bs.getD 10 0
+  let occ := leVal bs 11 8
+  let mut off := 19
+  let mut ts : Array (Nat × Array Bool) := #[]
+  for _ in [0:n] do
+    if bs.size < off + 8 then return none
+    let size := leVal bs off 8
+    off := off + 8
+    let nbytes := size / 8 + 1
+    if bs.size < off + nbytes then return none
+    let o := off
+    let a := Array.ofFn (n := size) (fun b => (bs.getD (o + b.val / 8) 0).testBit (b.val % 8))
+    ts := ts.push (size, a)
+    off := off + nbytes
+  return some { k := k, occ := occ, tables := ts.toList }
+
+def specCount (s : SpecG) (h : Nat) : SpecG :=
+  let newFirst := match s.tables with
+    | (size, a) :: _ => !(a.getD (h % size) false)
+    | [] => false
+  { s with occ := if newFirst then s.occ + 1 else s.occ,
+           tables := s.tables.map (fun t => (t.1, t.2.setIfInBounds (h % t.1) true)) }
+
+def saveHex (g : NG.G) : String :=
+  match g.save with
+  | none => "PANIC"
+  | some b => hex (bytesToU8 b)
+
+def stepC16 (st : St) (ws : List String) : St × Resp :=
+  match ws with
+  | ["case", _, "new", k, sizes] =>
+    let sz := natList sizes
+    ({ g := some (NG.G.new sz k.toNat!),
+       s := some { k := k.toNat!, occ := 0, tables := sz.map (fun n => (n, Array.replicate n false)) } },
+     { model := "ok" })
+  | "case" :: _ => ({}, { model := "ok" })
+  | ["count", h] =>
+    match st.g, st.s with
+    | some g, some s =>
+      let (g', r) := g.count h.toNat!
+      ({ g := some g', s := some (specCount s h.toNat!) }, { model := if r then "1" else "0" })
+    | _, _ => (st, { model := "nograph" })
+  | ["load", hx] =>
+    let bytes := u8ToBytes (unhex hx)
+    let g := NG.G.load bytes
+    let s := specDecode bytes.toArray
+    ({ g := g, s := s },
+     { model := match g with | some g => dumpModel g | none => "fail",
+       spec := match s with | some s => dumpSpec s | none => "fail" })
+  | ["dump"] =>
+    match st.g, st.s with
+    | some g, some s => (st, { model := dumpModel g, spec := dumpSpec s })
+    | _, _ => (st, { model := "nograph" })
+  | ["save"] =>
+    match st.g, st.s with
+    | some g, some s => (st, { model := saveHex g,
+                               spec := if g.tables.length ≤ 255 then hex (bytesToU8 (specFile s)) else "-" })
+    | _, _ => (st, { model := "nograph" })
+  | ["rt"] =>
+    match st.g with
+    | some g =>
+      let r := match g.save with
+        | none => "PANIC"
+        | some b => match NG.G.load b with
+          | none => "fail"
+          | some g' => if g' == { g with unique := 0 } then "same" else "diff"
+      -- more than 255 tables do not fit the one-byte count: outside the property
+      (st, { model := r, spec := if g.tables.length ≤ 255 then "same" else "-" })
+    | none => (st, { model := "nograph" })
+  | [op, _] =>
+    -- gz <level> / ffi <level> / file <level>: the bytes after writing through that path, loading
+    -- them back (niffler undoes the compression) and saving again
+    if op == "gz" || op == "ffi" || op == "file" then
+      match st.g, st.s with
+      | some g, some s =>
+        let r := match g.save with
+          | none => "PANIC"
+          | some b => match NG.G.load b with
+            | none => "fail"
+            | some g' => saveHex g'
+        (st, { model := r, spec := hex (bytesToU8 (specFile s)) })
+      | _, _ => (st, { model := "nograph" })
+    else (st, { model := "bad-op" })
+  | _ => (st, { model := "bad-op" })
+
+def main : IO Unit := Driver.run ({} : St) stepC16
